@@ -1,4 +1,5 @@
 #include "vh.h"
+#include <unistd.h>
 
 static char obuf[1 << 22];
 static size_t olen;
@@ -162,6 +163,8 @@ int main(int argc, char **argv) {
     setvbuf(stdout, iobuf, _IOFBF, sizeof(iobuf));
     const char *ff = getenv("VH_FLUSH"); /* flush after each op so a crash loses nothing */
     bool flush = !ff || strcmp(ff, "0") != 0;
+    const char *ot = getenv("VH_OP_TIMEOUT");
+    unsigned op_timeout = ot ? (unsigned)atoi(ot) : 120;
     while ((len = getline(&line, &cap, stdin)) > 0) {
         cur_line++;
         while (len > 0 && (line[len - 1] == '\n' || line[len - 1] == '\r')) {
@@ -190,7 +193,9 @@ int main(int argc, char **argv) {
         if (!f) {
             fputs("bad-op\n", stdout);
         } else {
+            alarm(op_timeout); /* an operation that does not terminate is reported as signal 14 */
             f(&l);
+            alarm(0);
             fputs(obuf, stdout);
             fputc('\n', stdout);
             if (mlen) {
